@@ -108,6 +108,11 @@ def special_cause(d, rid, pos, name, sites):
         return 'global-binding-invisible-at-module-level'
     if annotation_after_binding(ins, pos, sites):
         return 'annotation-evaluated-after-binding'
+    own = d.__dict__.setdefault('_own_iter', None)
+    if own is None:
+        own = d._own_iter = dyn_common.own_iterable_reads(d.tree)
+    if pos in own and all(ins.sites.get(s, ('', ''))[1] == 'comp' for s in sites):
+        return 'comprehension-variable-read-in-its-own-iterable'
     return None
 
 
@@ -130,6 +135,7 @@ def classify_known(sig):
 KNOWN_SIGS = {
     'C01-global-at-module-level': lambda sig: sig == 'global-binding-invisible-at-module-level',
     'C01-annotation-after-binding': lambda sig: sig == 'annotation-evaluated-after-binding',
+    'C01-comprehension-own-iterable': lambda sig: sig == 'comprehension-variable-read-in-its-own-iterable',
 }
 _listed = {e['id'] for e in core.load_known(PROPERTY) if e.get('status') == 'finding'}
 KNOWN_SIGS = {k: v for k, v in KNOWN_SIGS.items() if k in _listed}
